@@ -30,6 +30,17 @@ def gen_cases(ck: Check, n: int):
             v = trees.mutate_like(r, o, d)
         else:
             v = trees.gen_dict(r, d)
+        if isinstance(v, dict) and isinstance(o, dict) and r.random() < 0.15:
+            # the same sub-dictionary at two places of the overrides (there it will be one object), meeting
+            # dictionaries with keys of their own in the original
+            subs = [k for k, x in v.items() if isinstance(x, dict) and x]
+            if subs:
+                k = r.choice(subs)
+                v["also_" + k] = copy.deepcopy(v[k])
+                for kk in (k, "also_" + k):
+                    if not isinstance(o.get(kk), dict):
+                        o[kk] = {}
+                    o[kk]["own_" + kk] = 1
         cases.append((o, v))
     return cases
 
@@ -95,7 +106,8 @@ def case_term(case, ob):
 
 def run_cases(ck, cases):
     chunks = [cases[i:i + 500] for i in range(0, len(cases), 500)]
-    res = ck.run_impl("impl_merge.py", [{"cases": c} for c in chunks])
+    # third element: make equal non-empty sub-dictionaries of the overrides one object (aliases)
+    res = ck.run_impl("impl_merge.py", [{"cases": [[o, v, True] for o, v in c]} for c in chunks])
     obs = []
     for c, r in zip(chunks, res):
         if "error" in r:
